@@ -172,6 +172,53 @@ def witness_restore_fault(out):
     return 2
 
 
+def witness_cache_write_fault(out):
+    """Model-free: the cache volume is full while a build STORES a 300 kB output (RLIMIT_FSIZE on grog; the command lifts its own soft
+    limit, so the output in the workspace is complete).  That build may fail.  Then: fault-free build; edit; build; edit back; build
+    (a cache hit that restores the blob) -- after every successful build the output must be what a from-scratch build writes: a blob
+    whose write stopped half way must never be taken for the stored output."""
+    import os, subprocess, resource, shutil
+    grog = vlib.build_grog()
+    base = os.path.join(vlib.scratch(), "cachewritefault")
+    shutil.rmtree(base, ignore_errors=True)
+    ws, root = os.path.join(base, "ws"), os.path.join(base, "root")
+    os.makedirs(ws); os.makedirs(root)
+    cmd = "ulimit -S -f unlimited; { cat in.txt; head -c 300000 /dev/zero | tr '\\0' g; cat in.txt; } > out.bin"
+    json.dump({"targets": [{"name": "t", "inputs": ["in.txt"], "outputs": ["out.bin"], "command": cmd}]}, open(os.path.join(ws, "BUILD.json"), "w"))
+    open(os.path.join(ws, "grog.toml"), "w").write("")
+    want = lambda v: (v + "g" * 300000 + v).encode()
+
+    def run1(limit=None):
+        pre = (lambda: resource.setrlimit(resource.RLIMIT_FSIZE, (limit, resource.RLIM_INFINITY))) if limit else None
+        return subprocess.run([grog, "build", "//..."], cwd=ws, env=bl.grog_env(root, os.path.join(base, "trace")), preexec_fn=pre,
+                              stdout=subprocess.PIPE, stderr=subprocess.PIPE, text=True, timeout=120)
+    obs = []
+    bad = None
+    for k, (v, limit) in enumerate([("A\n", 65536), ("A\n", None), ("B\n", None), ("A\n", None), ("B\n", None)]):
+        open(os.path.join(ws, "in.txt"), "w").write(v)
+        if k >= 2 and os.path.exists(os.path.join(ws, "out.bin")):
+            os.unlink(os.path.join(ws, "out.bin"))        # a fresh checkout: the output has to come from the cache or from the command
+        p = run1(limit)
+        got = open(os.path.join(ws, "out.bin"), "rb").read() if os.path.isfile(os.path.join(ws, "out.bin")) else None
+        obs.append({"build": k, "input": v, "file_size_limit": limit, "rc": p.returncode, "output_bytes": None if got is None else len(got),
+                    "output_is_clean_build_output": got == want(v)})
+        if p.returncode == 0 and got != want(v) and bad is None:
+            bad = k
+        if p.returncode != 0 and limit is None and bad is None:
+            bad = -k
+    rp = {"description": ["//:t writes out.bin = in.txt + 300000 x 'g' + in.txt (the command lifts its soft file-size limit)",
+                          "build 0 under RLIMIT_FSIZE=65536 soft (grog's write of the blob into the cache breaks half way); build 1; "
+                          "in.txt := B, rm out.bin, build 2; in.txt := A, rm out.bin, build 3 (restores the blob of A); in.txt := B, rm, build 4"],
+          "observed": obs}
+    if bad is not None and bad >= 0:
+        out.violation("build %d of a history whose first build hit a full cache volume while storing the output succeeds but leaves %s bytes "
+                      "instead of the from-scratch output" % (bad, obs[bad]["output_bytes"]), rp)
+    elif bad is not None:
+        out.violation("cache-write-fault witness: the fault-free build %d failed" % -bad, rp, no_input=True)
+    shutil.rmtree(base, ignore_errors=True)
+    return len(obs)
+
+
 def witness_revert_inplace(out):
     """Model-free: a command that rewrites its output IN PLACE (`cat in > out`, no rm: the same inode is truncated and refilled) and
     a history that keeps returning to an earlier state: v1, v2, v1 (restored from the cache), v3 (a miss: rewrites the restored file
@@ -231,6 +278,7 @@ def run(out, tier):
     oracle_evals += witness_nocache_swap(out)
     oracle_evals += witness_restore_fault(out)
     oracle_evals += witness_revert_inplace(out)
+    oracle_evals += witness_cache_write_fault(out)
     for name, h, notes, m in batch:
         for note in notes:
             if note[0] == "plan-error":
@@ -276,6 +324,9 @@ def run(out, tier):
                         "targets are processed by the model in a topological order; schedule independence is argued in DESIGN.md section 4",
                         "digest function idealised as injective in the model (interned); real xxh3 collisions are outside the claim"]
     hc.cleanup(batch)
+    # input patterns (`inputs:` / `exclude_inputs:` globs): Glob.v against resolveInputs + doublestar.Glob (properties/C01_glob.v)
+    import c01_glob
+    c01_glob.glob_stage(out, tier)
 
 
 def replay(out, path):
